@@ -1,6 +1,8 @@
 """Contracts of concurrency/models.py and concurrency/executor.py verified against the real bodies (C09, C07, C06, C16, C08)."""
 from __future__ import annotations
 
+import ast
+
 import z3
 
 from pyvc import ops
@@ -11,7 +13,28 @@ from pyvc.state import St
 from pyvc.values import ClassRef, ExtRef, FuncRef, OpaqueFn, Opt, Ref, Sym, Unsupported, enum_member, enum_sort, fresh, fresh_name, is_sym, simp, zbool, zint, zreal
 
 
+def _intlike(v):
+    return (isinstance(v, int) and not isinstance(v, bool)) or is_sym(v, "int")
+
+
 class ExecHooks(Hooks):
+    # provenance of rounding: int / int is a ROUNDED double in CPython; under assumption A (floats are reals) the proofs below are only
+    # meaningful for decisions that do not compare such a value - recorded here, required by *.exact_arithmetic
+    def on_binop(self, eng, st, node, a, b, result):
+        if not is_sym(result):
+            return
+        rounded = st.ghost.get("__rounded__", frozenset())
+        key = result.t.sexpr()
+        if isinstance(node.op, ast.Div) and _intlike(a) and _intlike(b):
+            st.ghost["__rounded__"] = rounded | {key}
+        elif any(is_sym(x) and x.t.sexpr() in rounded for x in (a, b)):
+            st.ghost["__rounded__"] = rounded | {key}
+
+    def on_compare(self, eng, st, node, op, a, b):
+        rounded = st.ghost.get("__rounded__", frozenset())
+        if any(is_sym(x) and x.t.sexpr() in rounded for x in (a, b)):
+            st.ghost["__rounded_cmp__"] = tuple(st.ghost.get("__rounded_cmp__", ())) + (f"{st.env.get('__func__', '?')}:{node.lineno}",)
+
     def ext_call(self, eng, st, name, args, kwargs):
         if name in ("threading.Lock", "Lock"):
             return [("val", st.alloc("opaque:Lock", {}), st)]
@@ -88,6 +111,22 @@ def counters_obj(eng, st):
     return c, dict(total=total, minimum=minimum, tc_none=tc_none, tc=tc, tp_none=tp_none, tp=tp, s=s, f=f)
 
 
+def _replay_rounding(inputs):
+    from pyvc.check import native
+    r_ = native("percentage_rounding_replay.py", {})
+    return bool(r_.get("confirmed")), r_
+
+
+def exact_arithmetic(chk, name, s):
+    cmps = s.ghost.get("__rounded_cmp__", ())
+    chk.prove(name, s.pc, z3.BoolVal(not cmps),
+              desc="no decision of the completion policy compares a value that went through a rounded division (int / int is a rounded double): the failure percentage test is evaluated exactly, "
+                   "e.g. as failures * 100 > percentage * total; this is what makes the real-arithmetic reading (assumption A) of the policy contracts faithful for integer-valued percentages"
+                   + (f"; rounded comparisons at {sorted(set(cmps))}" if cmps else ""),
+              describe=lambda m: {"example": "7 failures of 100 with tolerated_failure_percentage=7: 7/100*100 == 7.000000000000001 > 7"}, replay=_replay_rounding,
+              sample="provenance of the operands of every comparison on the path")
+
+
 def counters_contract(chk, prefix="C09"):
     eng = Engine(hooks=ExecHooks())
     P = eng.program
@@ -105,6 +144,7 @@ def counters_contract(chk, prefix="C09"):
             if k == "raise":
                 chk.prove(f"{prefix}.counters.{m}", s.pc, F, desc=f"{m} does not raise")
                 continue
+            exact_arithmetic(chk, f"{prefix}.counters.exact_arithmetic.{m}", s)
             got = z3.BoolVal(v) if isinstance(v, bool) else zbool(v)
             chk.prove(f"{prefix}.counters.{m}", s.pc, got == spec(g), desc=f"ExecutionCounters.{m}() equals the policy's spec function for every configuration and count (linear real arithmetic)",
                       sample=f"{m}: returned value == spec(total, min_successful, tolerances, success, failure)")
@@ -185,6 +225,8 @@ def reason_consistency(chk, prefix="C09"):
     rcls = P.cls("concurrency.models.CompletionReason")
     consts = enum_sort(rcls)[1]
     total = g["s"] + g["f"] + g["started"]
+    for k_, v_, s_ in res:
+        exact_arithmetic(chk, f"{prefix}.classifier.exact_arithmetic", s_)
     stops = real_stop_decision(chk, eng, res[0][2] if res else st, g, total)
     for (spc, stop) in stops:
       pre = list(spc) + [stop, z3.Not(g["cfg_none"])]
@@ -942,3 +984,194 @@ def handlers_dispatch(chk, prefix="C16"):
             chk.prove(f"{prefix}.exec.{fn}", s.pc, goal,
                       desc=f"{fn}: reads the batch operation's own record; SUCCEEDED => replay(), otherwise execute(), with the same state and context; one executable per input with index = position (0..n-1)",
                       sample=f"{fn} over n symbolic inputs")
+
+
+def execute_item_contracts(chk, prefix="C09"):
+    """MapExecutor.execute_item / ParallelExecutor.execute_item: branch i runs the user's function once, on ITS item, and returns its value"""
+    class H(ExecHooks):
+        def glist_getitem(self, eng_, s, ref, k):
+            g = s.get(ref)
+            s.emit("item_read", index=k, in_range=z3.And(ops.zint(k) >= 0, ops.zint(k) < g["len"]))
+            return [("val", Sym("any", ITEM(ops.zint(k))), s)]
+
+        def opaque_call(self, eng_, s, fn, args, kwargs):
+            if fn.name == "branch_func":
+                s.emit("branch_func", args=tuple(args), kwargs=dict(kwargs))
+                s2 = s.fork()
+                exc = eng_.new_symexc(s2, "branch_error")
+                return [("val", fresh("any", "branch_value"), s), ("raise", exc, s2)]
+            return ExecHooks.opaque_call(self, eng_, s, fn, args, kwargs)
+    ITEM = z3.Function("item_at", z3.IntSort(), ops.ANY)
+    for kind, q in (("map", "operation.map.MapExecutor.execute_item"), ("parallel", "operation.parallel.ParallelExecutor.execute_item")):
+        eng = Engine(hooks=H())
+        P = eng.program
+        st = St()
+        chk.function(q)
+        n = fresh("int", "n_items")
+        idx = fresh("int", "index")
+        st.assume(z3.And(idx.t >= 0, idx.t < n.t))  # precondition: one Executable per item, index = position (C09.map.from_items)
+        items = st.alloc("list", {"__kind__": "glist", "len": n.t, "elem": fresh("any", "generic_item")})
+        exe = st.alloc(P.cls("concurrency.models.Executable"), {"index": idx, "func": OpaqueFn("branch_func")})
+        self_ = st.alloc(P.cls(q.rsplit(".", 1)[0]), {"items": items})
+        child = st.alloc("opaque:DurableContext", {})
+        for k, v, s in eng.run(P.func(q), [self_, child, exe], st=st):
+            chk.paths += 1
+            calls = [e for e in s.trace if e.kind == "branch_func"]
+            ok = len(calls) == 1 and not calls[0].kwargs
+            goal = z3.BoolVal(ok)
+            if ok:
+                a = calls[0].args
+                if kind == "map":
+                    good = len(a) == 4 and a[0] == child and is_sym(a[1], "any") and a[3] == items
+                    goal = z3.And(z3.BoolVal(good), a[1].t == ITEM(idx.t) if good else F, ops.values_equal(s, a[2], idx) if good else F)
+                else:
+                    goal = z3.BoolVal(len(a) == 1 and a[0] == child)
+                if k == "val":
+                    goal = z3.And(goal, z3.BoolVal(is_sym(v, "any") and v.t.decl().name().startswith("branch_value")))
+                else:
+                    goal = z3.And(goal, z3.BoolVal(isinstance(v, Ref) and v.cls == "symexc"))
+            chk.prove(f"{prefix}.{kind}.execute_item", s.pc, goal,
+                      desc={"map": "map branch i calls the user's function exactly once with (its child context, items[i], i, items) and returns its value / lets its exception through",
+                            "parallel": "parallel branch i calls ITS callable exactly once with its child context and returns its value / lets its exception through"}[kind])
+    # presets of the completion policy
+    eng = Engine(hooks=ExecHooks())
+    P = eng.program
+    cc = P.cls("config.CompletionConfig")
+    expect = {"first_successful": (1, None, None), "all_completed": (None, None, None), "all_successful": (None, 0, 0)}
+    for name, (ms, tc, tp) in expect.items():
+        m = cc.find_method(name)
+        if m is None:
+            continue
+        chk.function(f"config.CompletionConfig.{name}")
+        for k, v, s in eng.run(m, [], st=St()):
+            chk.paths += 1
+            ok = k == "val" and isinstance(v, Ref)
+            goal = z3.BoolVal(ok)
+            if ok:
+                f = s.get(v)
+                goal = z3.BoolVal(f["min_successful"] == ms and f["tolerated_failure_count"] == tc and (f["tolerated_failure_percentage"] == tp or (tp == 0 and f["tolerated_failure_percentage"] in (0, 0.0))))
+            chk.prove(f"{prefix}.config.presets.{name}", s.pc, goal, desc=f"CompletionConfig.{name}() is (min_successful={ms}, tolerated_failure_count={tc}, tolerated_failure_percentage={tp})")
+    return eng
+
+
+def from_items_contract(chk, prefix="C09"):
+    """BatchResult.from_items: the counts handed to the classifier are the numbers of items per status (S: collections.Counter counts occurrences),
+    completed = succeeded + failed, total = started + completed; the result carries the SAME items and the classifier's reason"""
+    COUNT = z3.Function("count_of_status", enum_sort(Engine().program.cls("concurrency.models.BatchItemStatus"))[0], z3.IntSort())
+
+    class H(ExecHooks):
+        def ext_call(self, eng_, s, name, args, kwargs):
+            if name in ("collections.Counter", "Counter"):
+                src = args[0]
+                stor = s.get(src) if isinstance(src, Ref) else {}
+                ok = stor.get("__kind__") == "glist" and is_sym(stor.get("elem"), "enum") and z3.eq(stor["elem"].t, s.ghost["generic_status"])
+                s.emit("counter_built", over_statuses=bool(ok))
+                return [("val", s.alloc("opaque:Counter", {}), s)]
+            return ExecHooks.ext_call(self, eng_, s, name, args, kwargs)
+
+        def opaque_call(self, eng_, s, fn, args, kwargs):
+            if fn.name == "Counter.get":
+                key, default = args[0], args[1] if len(args) > 1 else None
+                if default != 0:
+                    raise Unsupported("Counter.get default")
+                kt = key.t if is_sym(key, "enum") else enum_sort(scls)[1][key.name] if hasattr(key, "name") else None
+                from pyvc.values import enum_member as _em
+                if kt is None:
+                    raise Unsupported(f"Counter.get({key!r})")
+                return [("val", Sym("int", COUNT(kt)), s)]
+            return ExecHooks.opaque_call(self, eng_, s, fn, args, kwargs)
+    eng = Engine(hooks=H())
+    P = eng.program
+    scls = P.cls("concurrency.models.BatchItemStatus")
+    S_ = enum_sort(scls)[1]
+    br = P.cls("concurrency.models.BatchResult")
+    q = "concurrency.models.BatchResult.from_items"
+    chk.function(q, "verified (generic item; collections.Counter as the count-per-status function; the classifier by its contract)")
+    st = St()
+    n = fresh("int", "n_items")
+    st.assume(n.t >= 0)
+    status = fresh("enum", "item_status", scls)
+    st.ghost["generic_status"] = status.t
+    item = st.alloc(P.cls("concurrency.models.BatchItem"), {"index": fresh("int", "i"), "status": status, "result": None, "error": None})
+    items = st.alloc("list", {"__kind__": "glist", "len": n.t, "elem": item})
+    cfg = eng.sym_of_type("str | None", "completion_config", st)
+
+    def classifier(eng_, s, args, kwargs):
+        s.emit("classify", args=tuple(args), kwargs=dict(kwargs))
+        return [("val", fresh("enum", "reason", P.cls("concurrency.models.CompletionReason")), s)]
+    eng.summaries["concurrency.models.BatchResult._get_completion_reason"] = classifier
+    for k, v, s in eng.run(br.find_method("from_items"), [ClassRef(br), items, cfg], st=st):
+        chk.paths += 1
+        cl = [e for e in s.trace if e.kind == "classify"]
+        cb = [e for e in s.trace if e.kind == "counter_built"]
+        ok = k == "val" and isinstance(v, Ref) and len(cl) == 1 and len(cb) == 1 and cb[0].over_statuses and not [a for a in cl[0].args if not isinstance(a, ClassRef)]
+        goal = z3.BoolVal(ok)
+        if ok:
+            kw = cl[0].kwargs
+            need = {"failure_count", "success_count", "completed_count", "total_count", "completion_config"}
+            if set(kw) != need:
+                goal = F
+            else:
+                su, fa, stt = COUNT(S_["SUCCEEDED"]), COUNT(S_["FAILED"]), COUNT(S_["STARTED"])
+                r = s.get(v)
+                goal = z3.And(goal, zint(kw["failure_count"]) == fa, zint(kw["success_count"]) == su, zint(kw["completed_count"]) == su + fa, zint(kw["total_count"]) == su + fa + stt,
+                              z3.BoolVal(kw["completion_config"] is cfg or kw["completion_config"] == cfg), z3.BoolVal(r["all"] == items), z3.BoolVal(is_sym(r["completion_reason"], "enum") and r["completion_reason"].t.decl().name().startswith("reason")))
+        chk.prove(f"{prefix}.result.from_items", s.pc, goal,
+                  desc="from_items(items, config): the classifier is called once with failure/success counts = number of FAILED/SUCCEEDED items, completed = their sum, total = completed + number of STARTED items, and the given config; the result holds the same items and the classifier's reason",
+                  sample="from_items over a generic item list")
+    return eng
+
+
+def timer_scheduler_methods(chk, prefix="C07"):
+    """TimerScheduler.schedule_resume (the contract used by _on_task_complete) and shutdown"""
+    class H(ExecHooks):
+        def ext_call(self, eng_, s, name, args, kwargs):
+            if name == "heapq.heappush":
+                s.emit("heappush", heap=args[0], item=args[1], held=s.ghost.get("held", 0) > 0)
+                return [("val", None, s)]
+            return ExecHooks.ext_call(self, eng_, s, name, args, kwargs)
+
+        def cm_enter(self, eng_, s, cm):
+            if isinstance(cm, Ref) and cm.cls == "opaque:Lock":
+                s.ghost["held"] = s.ghost.get("held", 0) + 1
+            return ExecHooks.cm_enter(self, eng_, s, cm)
+
+        def cm_exit(self, eng_, s, cm, exc):
+            if isinstance(cm, Ref) and cm.cls == "opaque:Lock":
+                s.ghost["held"] = s.ghost.get("held", 0) - 1
+            return ExecHooks.cm_exit(self, eng_, s, cm, exc)
+
+        def opaque_call(self, eng_, s, fn, args, kwargs):
+            if fn.name in ("Event.set", "Thread.join", "list.clear"):
+                s.emit(fn.name, held=s.ghost.get("held", 0) > 0, kwargs=dict(kwargs))
+                return [("val", None, s)]
+            return ExecHooks.opaque_call(self, eng_, s, fn, args, kwargs)
+    eng = Engine(hooks=H())
+    P = eng.program
+    cls = P.cls("concurrency.executor.TimerScheduler")
+    st = St()
+    c0 = fresh("int", "schedule_counter")
+    heap = st.alloc("opaque:list", {})
+    self_ = st.alloc(cls, {"_pending_resumes": heap, "_lock": st.alloc("opaque:Lock", {}), "_schedule_counter": c0, "_shutdown": st.alloc("opaque:Event", {}), "_timer_thread": st.alloc("opaque:Thread", {})})
+    exe = st.alloc("opaque:ExecutableWithState", {})
+    at = fresh("real", "resume_time")
+    chk.function("concurrency.executor.TimerScheduler.schedule_resume")
+    for k, v, s in eng.run(cls.find_method("schedule_resume"), [self_, exe, at], st=st):
+        chk.paths += 1
+        hp = [e for e in s.trace if e.kind == "heappush"]
+        ok = k == "val" and len(hp) == 1 and hp[0].held and hp[0].heap == heap and isinstance(hp[0].item, tuple) and len(hp[0].item) == 3 and hp[0].item[2] == exe
+        goal = z3.BoolVal(ok)
+        if ok:
+            goal = z3.And(goal, ops.values_equal(s, hp[0].item[0], at), ops.values_equal(s, hp[0].item[1], c0), zint(s.get(self_)["_schedule_counter"]) == c0.t + 1)
+        chk.prove(f"{prefix}.timer.schedule_resume", s.pc, goal,
+                  desc="schedule_resume(branch, t): under the scheduler lock, exactly one entry (t, tie-break counter, branch) is pushed on the heap of pending resumes and the counter is advanced (entries never compare two branches)")
+    chk.function("concurrency.executor.TimerScheduler.shutdown")
+    st2 = St()
+    heap2 = st2.alloc("opaque:list", {})
+    self2 = st2.alloc(cls, {"_pending_resumes": heap2, "_lock": st2.alloc("opaque:Lock", {}), "_schedule_counter": 0, "_shutdown": st2.alloc("opaque:Event", {}), "_timer_thread": st2.alloc("opaque:Thread", {})})
+    for k, v, s in eng.run(cls.find_method("shutdown"), [self2], st=st2):
+        chk.paths += 1
+        kinds = [e.kind for e in s.trace]
+        ok = k == "val" and kinds == ["Event.set", "Thread.join", "list.clear"] and s.trace[2].held and "timeout" in s.trace[1].kwargs
+        chk.prove(f"{prefix}.timer.shutdown", s.pc, ok, desc="shutdown(): the stop flag is set first, the timer thread is joined with a timeout (a resubmission in flight cannot block it forever), then the pending resumes are dropped under the lock")
+    return eng
